@@ -15,6 +15,7 @@ import (
 	"fmt"
 	"math/rand"
 	"os"
+	"reflect"
 	"sort"
 	"strconv"
 
@@ -37,6 +38,32 @@ type env struct {
 	a      *state.Arbiters
 	params *config.Configuration
 	keys   map[string]cons.Key
+	origin map[string]state.ArbiterMember // immutable members, built once
+	crcs   map[string]state.ArbiterMember
+	hashes map[string]common.Uint168
+}
+
+func (e *env) originArbiter(tag string, i int) state.ArbiterMember {
+	k := tag + strconv.Itoa(i)
+	if m, ok := e.origin[k]; ok {
+		return m
+	}
+	m, err := state.NewOriginArbiter(e.key(tag, i).Pub)
+	if err != nil {
+		panic(err)
+	}
+	e.origin[k] = m
+	return m
+}
+
+func (e *env) hashOf(tag string, i int) common.Uint168 {
+	k := tag + strconv.Itoa(i)
+	if h, ok := e.hashes[k]; ok {
+		return h
+	}
+	h := progHash(e.key(tag, i).Pub)
+	e.hashes[k] = h
+	return h
 }
 
 func newEnv() *env {
@@ -48,7 +75,8 @@ func newEnv() *env {
 	if err != nil {
 		panic(err)
 	}
-	return &env{a: a, params: params, keys: map[string]cons.Key{}}
+	return &env{a: a, params: params, keys: map[string]cons.Key{}, origin: map[string]state.ArbiterMember{},
+		crcs: map[string]state.ArbiterMember{}, hashes: map[string]common.Uint168{}}
 }
 
 func (e *env) key(tag string, i int) cons.Key {
@@ -99,38 +127,41 @@ func (e *env) build(r *round) {
 	r.arbiters, r.cmembs = nil, nil
 	r.crcKey, r.dposKey, r.candKey = nil, nil, nil
 	for i, m := range r.crc {
-		owner := e.key("crcowner", i)
 		node := e.key("crcnode", i)
-		cm := &crstate.CRMember{MemberState: crstate.MemberElected}
-		if !m.elected {
-			cm.MemberState = crstate.MemberImpeached
-		}
-		cm.Info.Code = append(append([]byte{byte(len(owner.Pub))}, owner.Pub...), 0xac)
-		payee := progHash(owner.Pub)
-		if m.claimed {
-			cm.DPOSPublicKey = node.Pub
-		} else {
+		payee := e.hashOf("crcowner", i)
+		if !m.claimed {
 			// the member runs on the node of a registered producer
 			prod := e.key("crcproducer", i)
 			e.a.State.NodeOwnerKeys[hex.EncodeToString(node.Pub)] = hex.EncodeToString(prod.Pub)
 			if r.era == 3 {
-				payee = progHash(prod.Pub)
+				payee = e.hashOf("crcproducer", i)
 				r.rd.OwnerVotesInRound[payee] = common.Fixed64(m.votes)
 				r.rd.TotalVotesInRound += common.Fixed64(m.votes)
 			}
 		}
-		ar, err := state.NewCRCArbiter(node.Pub, owner.Pub, cm, true)
-		if err != nil {
-			panic(err)
+		ck := fmt.Sprintf("%d/%v/%v", i, m.elected, m.claimed)
+		ar, ok := e.crcs[ck]
+		if !ok {
+			owner := e.key("crcowner", i)
+			cm := &crstate.CRMember{MemberState: crstate.MemberElected}
+			if !m.elected {
+				cm.MemberState = crstate.MemberImpeached
+			}
+			cm.Info.Code = append(append([]byte{byte(len(owner.Pub))}, owner.Pub...), 0xac)
+			if m.claimed {
+				cm.DPOSPublicKey = node.Pub
+			}
+			var err error
+			if ar, err = state.NewCRCArbiter(node.Pub, owner.Pub, cm, true); err != nil {
+				panic(err)
+			}
+			e.crcs[ck] = ar
 		}
 		r.arbiters = append(r.arbiters, ar)
 		r.crcKey = append(r.crcKey, payee)
 	}
 	for i, v := range r.dpos {
-		ar, err := state.NewOriginArbiter(e.key("dpos", i).Pub)
-		if err != nil {
-			panic(err)
-		}
+		ar := e.originArbiter("dpos", i)
 		r.arbiters = append(r.arbiters, ar)
 		h := ar.GetOwnerProgramHash()
 		r.dposKey = append(r.dposKey, h)
@@ -138,10 +169,7 @@ func (e *env) build(r *round) {
 		r.rd.TotalVotesInRound += common.Fixed64(v)
 	}
 	for i, v := range r.cands {
-		ar, err := state.NewOriginArbiter(e.key("cand", i).Pub)
-		if err != nil {
-			panic(err)
-		}
+		ar := e.originArbiter("cand", i)
 		r.cmembs = append(r.cmembs, ar)
 		h := ar.GetOwnerProgramHash()
 		r.candKey = append(r.candKey, h)
@@ -282,28 +310,35 @@ func replay(path string) {
 			names := r.names()
 			var first outcome
 			bad := false
-			for hi, h := range heights(r.era, len(r.arbiters)) {
+			hs := heights(r.era, len(r.arbiters))
+			for hi, h := range hs {
 				o := e.call(h, r.reward)
-				info := map[string]interface{}{"case": a, "height": h, "spec": exp}
+				mkinfo := func() map[string]interface{} {
+					info := map[string]interface{}{"case": a, "height": h, "spec": exp}
+					if o.err == nil {
+						info["real"] = map[string]interface{}{"roundReward": mapJSON(o.m, names), "change": int64(o.change)}
+					} else {
+						info["real"] = map[string]interface{}{"err": o.err.Error()}
+					}
+					return info
+				}
 				if o.pan != nil {
-					rep.Violation("C27:panic"+shape, fmt.Sprintf("distributeDPOSReward panicked: %v", o.pan), info)
+					rep.Violation("C27:panic"+shape, fmt.Sprintf("distributeDPOSReward panicked: %v", o.pan),
+						map[string]interface{}{"case": a, "height": h, "spec": exp})
 					bad = true
 					break
 				}
 				if o.err == nil {
-					info["real"] = map[string]interface{}{"roundReward": mapJSON(o.m, names), "change": int64(o.change)}
 					if k, what := facts(o, r.reward); k != "" {
-						rep.Violation("C27:"+k+shape, fmt.Sprintf("era %d, reward %d, %d total votes: %s", r.era, r.reward, r.total, what), info)
+						rep.Violation("C27:"+k+shape, fmt.Sprintf("era %d, reward %d, %d total votes: %s", r.era, r.reward, r.total, what), mkinfo())
 						bad = true
 						break
 					}
-				} else {
-					info["real"] = map[string]interface{}{"err": o.err.Error()}
 				}
 				if hi == 0 {
 					first = o
-				} else if (o.err == nil) != (first.err == nil) || o.change != first.change || len(o.m) != len(first.m) {
-					rep.Mismatch(fmt.Sprintf("heights %v of era %d give different results", heights(r.era, len(r.arbiters)), r.era), info)
+				} else if (o.err == nil) != (first.err == nil) || o.change != first.change || !reflect.DeepEqual(o.m, first.m) {
+					rep.Mismatch(fmt.Sprintf("heights %v of era %d give different results", hs, r.era), mkinfo())
 					bad = true
 					break
 				}
@@ -312,14 +347,17 @@ func replay(path string) {
 				continue
 			}
 			o := first
-			info := map[string]interface{}{"case": a, "spec": exp}
-			if o.err != nil {
-				info["real"] = map[string]interface{}{"err": o.err.Error()}
-			} else {
-				info["real"] = map[string]interface{}{"roundReward": mapJSON(o.m, names), "change": int64(o.change)}
+			mkinfo := func() map[string]interface{} {
+				info := map[string]interface{}{"case": a, "spec": exp}
+				if o.err != nil {
+					info["real"] = map[string]interface{}{"err": o.err.Error()}
+				} else {
+					info["real"] = map[string]interface{}{"roundReward": mapJSON(o.m, names), "change": int64(o.change)}
+				}
+				return info
 			}
 			if rep.Bool(exp, "err") != (o.err != nil) {
-				rep.Mismatch(fmt.Sprintf("real err=%v, spec err=%v", o.err, rep.Bool(exp, "err")), info)
+				rep.Mismatch(fmt.Sprintf("real err=%v, spec err=%v", o.err, rep.Bool(exp, "err")), mkinfo())
 				continue
 			}
 			if o.err != nil {
@@ -361,7 +399,7 @@ func replay(path string) {
 				off = true
 			}
 			if off {
-				rep.Mismatch("real payouts differ from Reward.tla by more than float64 rounding (1 sela per vote share)", info)
+				rep.Mismatch("real payouts differ from Reward.tla by more than float64 rounding (1 sela per vote share)", mkinfo())
 				continue
 			}
 			sum := int64(0)
